@@ -219,6 +219,36 @@ def execConvWide (m : Mem) (ctx : Ctx) (b : BlockOp) (w : Option Weights) (round
         out := out.push (← finishWide m ctx b (npuScale rounding (acc + r.bias) r.scale r.shift))
   scatter m b.ofm out
 
+/-- MAX / AVERAGE pooling whose output stage is a wide one (16-bit table lookup) -/
+def execPoolWide (m : Mem) (ctx : Ctx) (b : BlockOp) (rounding : Rounding) : Except String Mem := do
+  if is32 b.ifm ∨ is32 b.ofm then throw "unsupported:pooling-with-int32-operand"
+  if b.dilationX ≠ 1 ∨ b.dilationY ≠ 1 then throw "pooling with dilation"
+  let globalScale := b.ofmPrecision / 256 % 2 = 1
+  let (scale, shift) ← if globalScale then
+      match b.ofmScale with
+      | some s => pure (lo32 s, hi6 s)
+      | none => throw "global scale selected but OFM_SCALE never written"
+    else pure (1, 0)
+  let ifm ← gather m b.ifm
+  let H := b.ifm.height
+  let W := b.ifm.width
+  let C := b.ifm.depth
+  let zp := b.ifm.zeroPoint
+  let mut out : Array Int := Array.mkEmpty (b.ofm.height * b.ofm.width * b.ofm.depth)
+  for oy in [0:b.ofm.height] do
+    for ox in [0:b.ofm.width] do
+      for oc in [0:b.ofm.depth] do
+        let vals := windowVals H W (fun y x => ifm.getD ((y * W + x) * C + oc) 0) b.kernelH b.kernelW b.strideY b.strideX b.padTop b.padLeft oy ox
+        let v ← match vals with
+          | [] => throw "pooling window without a valid element"
+          | v0 :: rest =>
+            if b.subOp = 0 then pure (rest.foldl max v0 - zp)
+            else
+              let s := vals.foldl (fun acc x => acc + (x - zp)) 0
+              if globalScale then pure (npuScale rounding s scale shift) else pure (divRoundAway s vals.length)
+        out := out.push (← finishWide m ctx b v)
+  scatter m b.ofm out
+
 def execBlockWide (m : Mem) (ctx : Ctx) (b : BlockOp) (regs : RegFile) (w : Option Weights) : Except String Mem := do
   if b.upscale ≠ 0 then throw "unsupported:upscale-with-wide-operation"
   if b.accFormat = 2 then throw "unsupported:fp16acc"
@@ -227,7 +257,8 @@ def execBlockWide (m : Mem) (ctx : Ctx) (b : BlockOp) (regs : RegFile) (w : Opti
   | .elementwise => execElementwiseWide m ctx b regs rounding
   | .pool =>
     if b.subOp = 2 then execReduceSum m ctx b rounding
-    else throw "unsupported:pooling-with-wide-operand"
+    else if b.subOp ≤ 1 then execPoolWide m ctx b rounding
+    else throw "unsupported:pooling-mode"
   | .conv | .depthwise => execConvWide m ctx b w rounding
   | .dma => throw "dma is not a block operation"
 
